@@ -215,6 +215,13 @@ impl Block for AuDecode {
                 self.state = DecodeState::WaitingHeader(data_offset as usize);
             }
             DecodeState::WaitingHeader(data_offset) => {
+                // The fixed part of the header is 24 bytes, of which the
+                // first 8 (magic and data offset) are already consumed.
+                if data_offset < 24 {
+                    return Err(Error::msg(format!(
+                        ".au data offset {data_offset} is smaller than the header"
+                    )));
+                }
                 let header_rest_len = data_offset - 8;
                 if i.len() < header_rest_len {
                     return Ok(BlockRet::WaitForStream(&self.src, header_rest_len));
@@ -236,6 +243,7 @@ impl Block for AuDecode {
                         "AU block only supports one channel currently, got {channels}"
                     )));
                 }
+                i.consume(header_rest_len);
                 self.state = DecodeState::Data;
             }
             DecodeState::Data => {
